@@ -25,7 +25,7 @@ def gen_cases(tier, seed):
     rng = random.Random(seed * 141650939 + 8)
     cases = []
     n = 1100 if tier == 'quick' else 25000
-    classes = ['digits', 'alnum', 'ascii', 'latin1', 'latin1_jis', 'kana', 'utf8', 'cyr', 'bytes', 'int', 'sjis_bytes']
+    classes = ['digits', 'alnum', 'ascii', 'latin1', 'latin1_jis', 'kana', 'utf8', 'cyr', 'bytes', 'int', 'sjis_bytes', 'cp932_only', 'hanzi']
     for _ in range(n):
         cls = rng.choice(classes)
         kw = {}
@@ -87,12 +87,60 @@ def gen_cases(tier, seed):
         content = gen.from_alphabet(rng, rng.randint(20, 120), alphabet)
         cases.append({'fn': 'make_sequence', 'content': content, 'kw': {'symbol_count': rng.randint(2, 5), 'encoding': enc},
                       'tag': 'single-byte-encoding', 'sel': 'symbol_count'})
+    # admissible requests (one mode, enough characters, far below the capacity of 16 symbols): must be answered
+    # with a sequence, in every mode incl. a requested hanzi / kanji mode and for texts outside JIS X 0208
+    for _ in range(120 if tier == 'quick' else 3000):
+        cls, mode = rng.choice([('digits', None), ('digits', 'numeric'), ('alnum', None), ('alnum', 'alphanumeric'),
+                                ('ascii', 'byte'), ('ascii', None), ('kana', None), ('kana', 'kanji'), ('hanzi', 'hanzi'),
+                                ('hanzi', 'hanzi'), ('hanzi', None), ('cp932_only', None), ('cp932_only', None),
+                                ('utf8', None), ('upper', None)])
+        k = rng.randint(2, 8)
+        content = gen.content_of(rng, cls, rng.randint(k, 90))
+        if len(content) < k:
+            continue
+        kw = {'symbol_count': k}
+        if mode:
+            kw['mode'] = rng.choice([mode, mode.upper()])
+        if rng.random() < 0.4:
+            kw['error'] = rng.choice(['L', 'M', 'Q', 'H'])
+        cases.append({'fn': 'make_sequence', 'content': content, 'kw': kw, 'tag': 'must-accept-' + cls, 'sel': 'symbol_count'})
     rng.shuffle(cases)
     return cases
 
 
 def xor_bytes(data):
     return reduce(lambda a, b: a ^ b, data, 0)
+
+
+def per_chunk_policy(content, encoding, mode, sym_payloads):
+    if isinstance(content, (bytes, bytearray)) or not sym_payloads or any(p is None for p in sym_payloads):
+        return None
+    text = str(content)
+    n = len(sym_payloads)
+    k, m = divmod(len(text), n)
+    chunks = [text[i * k + min(i, m):(i + 1) * k + min(i + 1, m)] for i in range(n)]
+    for ch, (got, truncated) in zip(chunks, sym_payloads):
+        if mode == 'hanzi':
+            encs = ['gb2312']
+        else:
+            encs = [encoding] if encoding else ['iso-8859-1', 'shift_jis', 'utf-8']
+        want = None
+        for e in encs:
+            try:
+                want = ch.encode(e)
+                break
+            except (UnicodeError, LookupError):
+                continue
+        if want is None:
+            return False
+        if truncated:
+            # an overflowing symbol: the readable part must at least start like its chunk (two bytes of slack for
+            # the cut inside a count unit)
+            if not (want.startswith(got) or want.startswith(got[:max(0, len(got) - 2)])):
+                return False
+        elif got != want:
+            return False
+    return True
 
 
 def check_sequence(case, seq, rec):
@@ -108,13 +156,18 @@ def check_sequence(case, seq, rec):
     info = {'n': n, 'versions': [], 'levels': []}
     payload = b''
     headers = []
+    sym_payloads = []
     for i, sym in enumerate(seq):
         if sym.is_micro:
             symptoms.append('micro-symbol')
         devs, s, _ = oracle.check_symbol(sym.matrix, {}, None, {'C02', 'C03'})
         if s is None:
             symptoms.append('symbol-unreadable')
+            sym_payloads.append(None)
             continue
+        # an unparsable (overflowing) symbol: only its first segment is meaningful, what follows is read from cut-off bits
+        sym_payloads.append((s.payload if s.parse_error is None else (s.segments[0]['payload'] if s.segments else b''),
+                             s.parse_error is not None))
         rec.count('symbols_decoded_in_sequences')
         for prop, kind, detail in devs:
             symptoms.append('symbol-%s-%s' % (prop, kind))
@@ -136,6 +189,9 @@ def check_sequence(case, seq, rec):
     except (oracle.Refuse, UnicodeError, LookupError):
         expected = None
     info['expected_len'] = None if expected is None else len(expected)
+    # classification aid for the recorded chunking finding: is every symbol's payload what "cut the text by
+    # characters, let each chunk pick Latin-1 / Shift JIS / UTF-8 (or use the explicit encoding)" yields?
+    info['per_chunk_policy'] = per_chunk_policy(case['content'], kw.get('encoding'), a.get('mode'), sym_payloads)
     info['decoded_len'] = len(payload)
     if expected is not None:
         info['mode'] = parts[0]['mode']
@@ -182,6 +238,8 @@ def run_cases(cases, rec, tier='quick', seed='0'):
             seq = segno.make_sequence(case['content'], **case['kw'])
         except ValueError as ex:
             rec.count('refused:%s' % type(ex).__name__)
+            if str(case.get('tag', '')).startswith('must-accept'):
+                rec.deviation('C08', 'admissible-sequence-refused', {'type': type(ex).__name__, 'message': str(ex)[:200]})
             continue
         except Exception as ex:  # noqa: BLE001
             rec.count('refused:%s' % type(ex).__name__)
